@@ -6,13 +6,13 @@ MANIFEST = dict(
          "hence for every metric: indices in range, pairwise distinct, requested count; the first element is the object farthest from the centroid; "
          "every further element maximises, over the objects not yet chosen, the minimum distance to those already chosen (first maximum on ties). "
          "The k-means labelling partition among threads is decided under C13 (slice_getLabels_).",
-    note="Bounded (objects <= 3: four objects exhaust the solver's memory; selection sizes up to and above the object count). MaxDis_Fast, MDC, k-means++ and the k-means centroid/nearest-centroid "
-         "clauses are not yet under contract; agreement of the two max-min implementations follows only where both satisfy this specification. "
+    note="Bounded (objects <= 3: four objects exhaust the solver's memory; selection sizes up to and above the object count). MaxDis_Fast is checked against the same specification for selection sizes up to the object count (it does not clamp larger requests); MDC, k-means++ and the k-means centroid/nearest-centroid "
+         "clauses are not under contract. "
          "Distances are oracles: CalculateDistance and the centroid distance (one variable, sqrt identity on the oracle tags).",
     technique="CBMC on the real MaxDis body with oracle distances; postconditions as harness assertions; bounded object counts")
 
-META = dict(decided="MaxDis: range, distinctness, count, first = farthest from centroid, greedy max-min step",
-            not_decided="MaxDis_Fast / MDC / k-means++ selections; k-means centroid = mean and nearest-centroid labels (numerical); convergence tolerance semantics",
+META = dict(decided="MaxDis and MaxDis_Fast: range, distinctness, count, first = farthest from centroid, greedy max-min step (same specification)",
+            not_decided="MDC / k-means++ selections; k-means centroid = mean and nearest-centroid labels (numerical); convergence tolerance semantics",
             trusted_base=["oracle distances in harness/C17/maxdis.c"], assumptions=[])
 
 S = ["matrix.c", "vector.c", "memwrapper.c", "numeric.c"]
@@ -25,4 +25,10 @@ def jobs(tier):
         J.append(Job("MaxDis@nobj=%d,nsel=%d" % (nobj, nsel), "C17/maxdis.c", entry="h_MaxDis", srcs=S, kind="bounded", defines={"VC_NOBJ": nobj, "VC_NSEL": nsel},
                      unwind=nobj + 4, functions=["MaxDis"], timeout=900, object_bits=12, cbmc_flags=["--slice-formula"], bound="%d objects, %d requested; all distance values arbitrary" % (nobj, nsel),
                      clause="MaxDis greedy max-min specification"))
+    for (nobj, nsel) in [(3, 1), (3, 2), (3, 3), (2, 2), (1, 1)]:
+        J.append(Job("MaxDis_Fast@nobj=%d,nsel=%d" % (nobj, nsel), "C17/maxdis_fast.c", entry="h_MaxDis_Fast", srcs=S + ["metricspace.c", "stubs/memmove_stub.c"], kind="bounded",
+                     defines={"VC_NOBJ": nobj, "VC_NSEL": nsel}, unwind=nobj + 4, unwindset=["memmove.0:%d" % (8 * nobj + 2), "memmove.1:%d" % (8 * nobj + 2)],
+                     functions=["MaxDis_Fast", "square_to_condensed_index"], timeout=900, object_bits=12, cbmc_flags=["--slice-formula"],
+                     bound="%d objects, %d requested (<= objects); all pair distances arbitrary" % (nobj, nsel),
+                     clause="MaxDis_Fast satisfies the same greedy max-min specification as MaxDis (so both return the same sequence whenever the condensed and square distances agree, C13)"))
     return J
